@@ -563,6 +563,9 @@ int __wrap_setsockopt(int fd, int level, int optname, const void *optval, sockle
         e->can_filter_set = true;
     } else if (level == SOL_CAN_RAW && optname == CAN_RAW_ERR_FILTER && optlen >= sizeof(can_err_mask_t)) {
         e->can_err_mask = *(const can_err_mask_t *)optval;
+    } else if (level == IPPROTO_IP && optname == IP_MTU_DISCOVER && optlen >= sizeof(int)) {
+        int v = *(const int *)optval;
+        e->pmtudisc_do = v == IP_PMTUDISC_DO || v == IP_PMTUDISC_PROBE;
     } else if (level == SOL_SOCKET && optname == SO_RCVTIMEO && optlen >= sizeof(struct timeval)) {
         const struct timeval *tv = (const struct timeval *)optval;
         e->rcvtimeo_ns = (uint64_t)tv->tv_sec * 1000000000ULL + (uint64_t)tv->tv_usec * 1000ULL;
@@ -625,6 +628,11 @@ ssize_t __wrap_sendto(int fd, const void *buf, size_t len, int flags, const stru
     if (!e || (e->kind != FdEnt::PACKET && e->kind != FdEnt::UDP)) { errno = EBADF; return -1; }
     // a non-blocking send may find the transmit queue full (cooperative fault point: only programs that ask for MSG_DONTWAIT see it)
     if ((flags & MSG_DONTWAIT) && w.rng_net.chance(0.1)) { w.count("fault.sendto_eagain"); w.log("sendto-eagain", (uint64_t)fd); errno = EAGAIN; return -1; }
+    // what does not fit: a packet socket takes no more than the interface MTU (1500), a UDP socket no more than an IP datagram can
+    // carry, and no more than one unfragmented packet (1500 - 20 - 8) when path-MTU discovery forbids fragmentation
+    if ((e->kind == FdEnt::PACKET && len > 1500) || (e->kind == FdEnt::UDP && (len > 65507 || (e->pmtudisc_do && len > 1472)))) {
+        w.count("ev.sendto_emsgsize"); w.log("sendto-emsgsize", (uint64_t)fd, len); errno = EMSGSIZE; return -1;
+    }
     Frame f;
     f.data.assign((const uint8_t *)buf, (const uint8_t *)buf + len);
     Node &nd = w.cur_node();
@@ -700,6 +708,7 @@ ssize_t __wrap_read(int fd, void *buf, size_t len) {
             struct canfd_frame fr;
             memset(&fr, 0, sizeof fr);
             fr.can_id = c.can_id; fr.len = c.len; fr.flags = c.flags;
+            fr.__res0 = (uint8_t)c.junk; fr.__res1 = (uint8_t)(c.junk >> 8);
             memcpy(fr.data, c.data, 64);
             n = std::min(len, sizeof fr);
             memcpy(buf, &fr, n);
@@ -707,6 +716,7 @@ ssize_t __wrap_read(int fd, void *buf, size_t len) {
             struct can_frame fr;
             memset(&fr, 0, sizeof fr);
             fr.can_id = c.can_id; fr.len = c.len;
+            fr.__pad = (uint8_t)c.junk; fr.__res0 = (uint8_t)(c.junk >> 8);
             if (c.len == 8) fr.len8_dlc = c.dlc8;
             memcpy(fr.data, c.data, 8);
             n = std::min(len, sizeof fr);
